@@ -42,6 +42,43 @@ FOREIGN_EVENTS = {
 }
 
 
+# Calls into the standard library made by callbacks / exception constructors: which of them are total on the values they get
+# here (text, numbers), and which are documented to raise. Anything else stops the analysis (exit 2) rather than being guessed.
+TOTAL_EXTERNALS = {"builtins.str", "builtins.repr", "builtins.len", "builtins.isinstance", "builtins.format", "builtins.type", "builtins.bool",
+                   "builtins.tuple", "builtins.list", "builtins.getattr", "builtins.hasattr", "builtins.ascii", "builtins.id", "builtins.hash",
+                   "logging.getLogger", "textwrap.shorten", "textwrap.dedent", "unicodedata.category", "unicodedata.normalize", "re.escape",
+                   "builtins.min", "builtins.max", "builtins.sorted", "builtins.enumerate", "builtins.zip", "builtins.dict", "builtins.set",
+                   "builtins.frozenset", "builtins.print"}
+PARTIAL_EXTERNALS = {
+    "unicodedata.name": ("ValueError", "no name exists for control characters, unassigned and private-use code points, surrogates", 1),
+    "unicodedata.lookup": ("KeyError", "unknown character names", None),
+    "unicodedata.digit": ("ValueError", "characters without a digit value", 1),
+    "unicodedata.numeric": ("ValueError", "characters without a numeric value", 1),
+    "unicodedata.decimal": ("ValueError", "characters without a decimal value", 1),
+    "builtins.ord": ("TypeError", "strings that are not exactly one character long", None),
+    "builtins.chr": ("ValueError", "numbers outside range(0x110000)", None),
+    "builtins.int": ("ValueError", "text that is not an integer literal", None),
+    "builtins.float": ("ValueError", "text that is not a number", None),
+    "builtins.next": ("StopIteration", "exhausted iterators", 1),
+}
+
+
+def _partial_external(ev) -> Optional[Tuple[str, str, str]]:
+    """An `extcall` event -> (function, exception, when) if the callee is documented to raise for some arguments"""
+    f = ev.data.get("func")
+    q = getattr(f, "qual", None)
+    if q is None:
+        return None
+    q = q.replace("_operator.", "operator.")
+    if q in PARTIAL_EXTERNALS:
+        exc, when, safe_arity = PARTIAL_EXTERNALS[q]
+        nargs = len(ev.data.get("args") or [])
+        if safe_arity is not None and nargs > safe_arity:
+            return None  # called with a default: total
+        return q, exc, when
+    return None
+
+
 def lib_exception(env, q: Optional[str]) -> bool:
     return bool(q) and q in env.repo.classes and BASE_EXC in env.repo.mro(q)
 
@@ -274,6 +311,13 @@ def _events_total(ctx: Ctx, env, rule_id: str, key: str, x, module, production=N
                      f"partial operation {what} can raise {exc.rsplit('.', 1)[-1]} and nothing converts it", ev.where,
                      _witness_for(production) if production is not None else None)
             ok = False
+        elif ev.kind == "extcall":
+            pe = _partial_external(ev)
+            if pe is not None and not any(e2.kind == "may_raise" and e2.where == ev.where and e2.data.get("caught") for e2 in x.events):
+                fq, exc, when = pe
+                ctx.fail(rule_id, f"{key}|extcall|{fq}", f"calls {fq}(), which raises {exc} for {when}, and nothing converts it", ev.where,
+                         "name eq \\x00 (a character without a Unicode name)" if fq == "unicodedata.name" else None)
+                ok = False
         elif ev.kind == "while":
             pass
     return ok
